@@ -203,6 +203,15 @@ structure Env where
 def validChain (env : Env) (c : Str) : Bool :=
   c = env.serverChain || (c = [] && env.serverChain = env.mainChain)
 
+/-- signatures are hex text decoded with `hex.DecodeString` / `DeserializeHexStr`, which accept both letter cases:
+two signature strings are the same signature when they agree after lower-casing `A`–`F`. -/
+def lowerHex (s : Str) : Str := s.map fun c => if 65 ≤ c ∧ c ≤ 70 then c + 32 else c
+
+/-- `miner.Verify(sig, hash)` in the idealised signature model: `sig` is (a spelling of) a signature that the real
+`Sign` produced for exactly this signer and this message. -/
+def sigOk (env : Env) (signer hash sig : Str) : Bool :=
+  env.signed.any fun t => t.1 = signer && t.2.1 = hash && lowerHex t.2.2 = lowerHex sig
+
 def checkOk (tbl : Table) (H Hmb : Str → Str) (env : Env) (b : Block) : Check → Bool
   | .chainValid => validChain env (b.str .chainID)
   | .hashNonEmpty => b.str .hash ≠ []
@@ -212,7 +221,7 @@ def checkOk (tbl : Table) (H Hmb : Str → Str) (env : Env) (b : Block) : Check 
     | none => true
     | some m => b.txns.length = m.length
   | .hashMatches => b.str .hash = computeHash tbl H Hmb b
-  | .sigVerifies => env.signed.contains (b.str .minerID, b.str .hash, b.str .signature)
+  | .sigVerifies => sigOk env (b.str .minerID) (b.str .hash) (b.str .signature)
 
 /-- `Block.Validate`: `none` = accepted, `some c` = rejected by check `c` -/
 def validate (tbl : Table) (H Hmb : Str → Str) (env : Env) (b : Block) : Option Check :=
